@@ -22,6 +22,7 @@ import (
 	"github.com/alttpo/snes/mapping/hirom"
 	"github.com/alttpo/snes/mapping/lorom"
 	"github.com/alttpo/snes/mapping/sa1rom"
+	"github.com/alttpo/snes/mapping/util"
 )
 
 // Thread is one library instance plus the operations performed on it.
@@ -119,7 +120,10 @@ func (t *sysT) Do(i int) string {
 		budgets := []uint64{20, 60, 25}
 		t.log.Reset()
 		ok := t.s.RunUntil(targets[i%3], budgets[i%3])
-		return digest(ok, t.log.String(), t.s.GetPC())
+		dump := make([]byte, 0x40)
+		n := t.s.Bus.EaDump(start-3, start+0x30, dump)
+		w24 := t.s.Bus.EaRead24_wrap(0x7E, uint16(start)+uint16(i))
+		return digest(ok, t.log.String(), t.s.GetPC(), n, dump, w24)
 	})
 }
 func (t *sysT) State() string {
@@ -160,7 +164,14 @@ func (t *cpuT) Do(i int) string {
 			n, _ := t.c.Step()
 			cy += n
 		}
-		return digest(string(tr), cy)
+		f := t.c.Flags()
+		t.c.SetFlags(f)
+		if i == 1 {
+			t.c.TriggerIRQ()
+		}
+		dump := make([]byte, 0x20)
+		n := t.b.EaDump(uint32(0x8000+0x100*t.v)+1, uint32(0x8000+0x100*t.v)+0x1A, dump)
+		return digest(string(tr), cy, f, n, dump)
 	})
 }
 func (t *cpuT) State() string {
@@ -241,7 +252,15 @@ func (t *asmT) Do(i int) string {
 			e.EmitBytes(bytes.Repeat([]byte{byte(0xA0 + t.v)}, 17+t.v))
 			e.BNE(fmt.Sprintf("loop%d", t.v))
 			e.BRA(fmt.Sprintf("out%d", t.v))
-			return digest(e.Len(), e.PC(), t.listings())
+			e.REP(0x20)
+			e.LDA_imm16_w(uint16(0x1200 + t.v))
+			e.AssumeSEP(0x10)
+			e.LDX_imm8_b(uint8(t.v))
+			e.MVN(uint8(0x7E+t.v), 0x7F)
+			e.LDA_long(uint32(0x7EF340 + t.v))
+			e.JMP_indirect(uint16(0xFFEA + t.v))
+			e.WDM(uint8(t.v))
+			return digest(e.Len(), e.PC(), e.IsM16bit(), e.IsX16bit(), e.GetBase(), e.Cap(), t.listings())
 		case 1:
 			c := e.Clone(make([]byte, 0x80))
 			c.JSL(uint32(0x7E0000 + t.v))
@@ -302,7 +321,7 @@ func (t *romT) Do(i int) string {
 			e2 := r.WriteHeader()
 			var b bytes.Buffer
 			e3 := r.Header.WriteHeader(&b)
-			return digest(e1, e2, e3, b.Bytes(), r.Header.HeaderVersion(), r.Header.Score(0x7FB0), snes.RegionNames[r.Header.DestinationCode])
+			return digest(e1, e2, e3, b.Bytes(), r.Header.HeaderVersion(), r.Header.Score(0x7FB0), r.Header.Score(0xFFB0), r.Header.ROMSizeBytes()&0xFFFF, r.Header.RAMSizeBytes()&0xFFFF, snes.RegionNames[r.Header.DestinationCode], snes.RegionNames[snes.Region(t.v)])
 		}
 	})
 }
@@ -333,6 +352,9 @@ func (t *fnT) Do(i int) string {
 			col := color15.Color(c)
 			r, g, b := col.ToRGB()
 			fmt.Fprintf(h, "%x %d %d %d %d;", col.MulDiv(uint8(3+t.v), uint8(2+i)), r, g, b, col.Luminosity())
+		}
+		for a := base; a < 1<<24; a += 0x10101 {
+			fmt.Fprintf(h, "%x;", util.BankToLinear(a))
 		}
 		d := hex.EncodeToString(h.Sum(nil)[:8])
 		t.acc = digest(t.acc, d)
